@@ -102,7 +102,7 @@ func vhPtrStrEq(p *string, present bool, v string) bool {
 
 // C05: the controller receives, position by position, the value carried at the declared location, converted
 // to the declared type; a missing required value or a value that does not convert is answered 422 without a call
-func vhC05(engine int, route int) {
+func vhC05(engine int, route int, short int) {
 	fixture := vhFixture()
 	exp := fixture[route]
 	i := vhFindRoute(engine, exp)
@@ -112,7 +112,7 @@ func vhC05(engine int, route int) {
 	var check func(args []any) bool
 	switch route {
 	case 0: // GetItem(id int [path], q *string [query], h string [header x-h])
-		id := vhNumberText("id", 3, "019-+a", "", "")
+		id := vhNumberText("id", short, "019-+a", "", "")
 		req.Path = []greq.KV{{"id", id}}
 		qPresent := symxBool("q.present")
 		q := ""
@@ -144,7 +144,7 @@ func vhC05(engine int, route int) {
 		bPresent := symxBool("b.present")
 		b := ""
 		if bPresent {
-			b = vhNumberText("b", 3, "019-+", "", "")
+			b = vhNumberText("b", short, "019-+", "", "")
 			req.Form = append(req.Form, greq.KV{"b", b})
 		}
 		bv, bOK := vhRefParseInt(b, 64)
@@ -168,14 +168,14 @@ func vhC05(engine int, route int) {
 			tags = append(tags, t)
 			req.Query = append(req.Query, greq.KV{"tags", t})
 		}
-		n := vhNumberText("n", 3, "019-+", "429496729", "56") // around 2^32 = 4294967296
+		n := vhNumberText("n", short, "019-+", "429496729", "56") // around 2^32 = 4294967296
 		req.Query = append(req.Query, greq.KV{"n", n})
 		flag := []string{"true", "false", "1", "0", "t", "T", "TRUE", "False", "yes", "2", ""}[symxChoice("flag", 11)]
 		req.Query = append(req.Query, greq.KV{"flag", flag})
 		smallPresent := symxBool("small.present")
 		small := ""
 		if smallPresent {
-			small = symxString("small", 1, 4, "0129-")
+			small = symxString("small", 1, short+1, "0129-")
 			req.Header = append(req.Header, greq.KV{"x-small", small})
 		}
 		nv, nOK := vhRefParseUint(n, 64) // Go's uint is 64 bits wide on the supported platforms
@@ -216,7 +216,7 @@ func vhC05(engine int, route int) {
 	case 6: // PutThing(key string [path name], big int64 [query])
 		name := symxString("name", 1, 2, "ab")
 		req.Path = []greq.KV{{"name", name}}
-		big := vhNumberText("big", 3, "019-+", "922337203685477580", "789") // around 2^63-1 = 9223372036854775807
+		big := vhNumberText("big", short, "019-+", "922337203685477580", "789") // around 2^63-1 = 9223372036854775807
 		req.Query = append(req.Query, greq.KV{"big", big})
 		bv, bOK := vhRefParseInt(big, 64)
 		ok = bOK
@@ -245,10 +245,17 @@ func vhC05(engine int, route int) {
 	}
 }
 
-func vhC05All(engine int) { vhC05(engine, []int{0, 2, 3, 4, 6}[symxChoice("route", 5)]) }
+func vhC05All(engine int, short int) {
+	vhC05(engine, []int{0, 2, 3, 4, 6}[symxChoice("route", 5)], short)
+}
 
-func vh_C05_gin_Q()   { vhC05All(0) }
-func vh_C05_echo_Q()  { vhC05All(1) }
-func vh_C05_mux_Q()   { vhC05All(2) }
-func vh_C05_chi_Q()   { vhC05All(3) }
-func vh_C05_fiber_Q() { vhC05All(4) }
+func vh_C05_gin_Q()   { vhC05All(0, 2) }
+func vh_C05_echo_Q()  { vhC05All(1, 2) }
+func vh_C05_mux_Q()   { vhC05All(2, 2) }
+func vh_C05_chi_Q()   { vhC05All(3, 2) }
+func vh_C05_fiber_Q() { vhC05All(4, 2) }
+func vh_C05_gin_T()   { vhC05All(0, 3) }
+func vh_C05_echo_T()  { vhC05All(1, 3) }
+func vh_C05_mux_T()   { vhC05All(2, 3) }
+func vh_C05_chi_T()   { vhC05All(3, 3) }
+func vh_C05_fiber_T() { vhC05All(4, 3) }
